@@ -463,7 +463,9 @@ def not_found(prog, rep):
                         ok = bool(miss) and all(g.exit not in g.reach_avoiding([v], include_start=True) for v in miss) and g.postdominates(tn.id, g.entry)
                     why = "no `rowcount != 1 -> raise ValueError` on every path"
                 elif m == "get_metadata":
-                    tests = [n for n in g.nodes if n.kind == "branch" and norm(n.ast) in ("row is not None", "row is None", "row")]
+                    # the fetched row, under whatever name it is kept
+                    rowv = next((norm(a_.targets[0]) for a_ in walk_own(fi.node) if isinstance(a_, ast.Assign) and len(a_.targets) == 1 and isinstance(a_.targets[0], ast.Name) and isinstance(a_.value, ast.Call) and isinstance(a_.value.func, ast.Attribute) and a_.value.func.attr == "fetchone"), "row")
+                    tests = [n for n in g.nodes if n.kind == "branch" and norm(n.ast) in (f"{rowv} is not None", f"{rowv} is None", rowv, f"not {rowv}")]
                     # a local that is None exactly where the row is: `x = None` under `row is None`, tested later
                     carriers = set()
                     for t_ in list(tests):
@@ -484,7 +486,7 @@ def not_found(prog, rep):
                         miss = [v for v, lab in g.succ[ct.id] if lab and lab[2] is pol_missing]
                         ok = all(g.exit not in g.reach_avoiding([v], include_start=True) for v in miss) and bool(miss)
                     elif tests and raises:
-                        pol_missing = norm(tests[0].ast) == "row is None"
+                        pol_missing = norm(tests[0].ast) in (f"{rowv} is None", f"not {rowv}")
                         miss = [v for v, lab in g.succ[tests[0].id] if lab and lab[2] is pol_missing]
                         ok = all(g.exit not in g.reach_avoiding([v], include_start=True) for v in miss) and bool(miss)
                     if not tests and raises:
